@@ -3,7 +3,7 @@ SPEC = dict(
     title="Manual recovery keeps all applied data",
     pkg="./store", files=["store/c33_verif_test.go", "store/c33_c01_common_verif_test.go"],
     rule="single-node histories (q: 53 hand-picked + 60 generated, t: 1500) of 2-10 steps over a parent/child database: multi-statement and transactional requests "
-         "with primary-key and foreign-key violating statements, user snapshots that truncate the log or not, whole-database loads; foreign keys on/off and "
+         "with primary-key and foreign-key violating statements, user snapshots that truncate the log or not, whole-database loads, loads of unreadable data that every node refuses (4 kinds); foreign keys on/off and "
          "snapshot-on-close on/off as configuration dimensions; shutdown; one of 17 kinds of peers.json (valid: self, self+others, moved address, others only, "
          "self as non-voter; invalid: duplicate id/address, no voter, empty id/address, protocol in address, no port, too many colons, empty list, malformed JSON); "
          "before the re-open 0-2 recovery attempts that fail (I/O error from the snapshot store or the log store) or die (crash image of the data directory) at one of 11 points inside RecoverNode (list, open snapshot, first/last GetLog, Create, sink Write, sink Close, after Close, FirstIndex, DeleteRange, after DeleteRange); re-open. A case is non-trivial when the peers file is valid and log entries after the newest snapshot had to be replayed; distinct by the whole input",
